@@ -107,6 +107,34 @@ CHECKS = {
         "in one process and compared with the same call on pristine process state (explicit history exploration of the class-level state).",
    note="Process-lifetime state of menu is the class attribute Menu.field_info, snapshot/restored by the harness to emulate a fresh process; NaN extrema excluded.",
    tech="bounded-exhaustive exploration incl. depth-2 operation histories against a reference model"),
+ "C07": dict(cat="model_checking", design="4/C07",
+   text="Mandoline.slice(fformat='return') is executed at EVERY lattice position (multiples of a quarter of the finest cell over the closed "
+        "domain: cell centres, cell faces, box faces, both half-cell gaps next to every box face, domain faces; odd multiples for "
+        "non-dyadic geometry) x normal x three axis rotations of 1..3-level meshes (fine boxes adjacent / separated along the normal, "
+        "touching domain faces) x field lists x limits x serial/parallel x two np.empty poison patterns, and judged per pixel against an "
+        "exact integer-lattice reference: affine field = a+b*pos, constant field = covering data, general field = lerp of the bracket "
+        "samples of the finest containing level when both exist there (else membership in the finite candidate set), no poison, "
+        "grid_level integral and a level with a box there, coordinates, default position = centre, outside refused.",
+   note="Where the bracket of the finest containing level is incomplete the statement leaves the value open and the whole candidate set is accepted. "
+        "One genuine defect is recorded as known finding (plane within half a cell of a face shared by two same-level boxes).",
+   tech="bounded-exhaustive exploration of the implementation against an exact lattice reference model"),
+ "C16": dict(cat="model_checking", design="4/C16",
+   text="Mandoline.slice(fformat='plotfile') over C07's meshes x rotations x normals x lattice positions x field lists x limits and the "
+        "file-splitting template (1..7 thin boxes x 8 fields crossing the 1 MB threshold, 1..4 files); the written directory is parsed "
+        "independently: dimensionality, time, in-plane geometry, per level the multiset of footprints of the boxes the plane meets, per box "
+        "the level's own bracket samples interpolated onto the plane, min/max = extrema of the written data, structural validity, taste "
+        "(default + coordinates), no uninitialised memory.",
+   note="Two genuine defects are recorded as known findings (aliased per-level arrays; crash when a selected level is not met by the plane); "
+        "values that the aliasing explains are classified, everything else (structure, footprints, min/max, constant fields on uncovered boxes, cell-centre positions) stays enforced.",
+   tech="bounded-exhaustive exploration of the implementation against an exact lattice reference model"),
+ "C17": dict(cat="model_checking", design="4/C17",
+   text="chk2plt is executed on synthetic PeleLMeX checkpoints (1..3 levels, anisotropic cells, ghost width 1..3, every box->file layout of "
+        "the state subset x named layouts of gradp / I_R, 1..3 species, fractional / integral times, optional integer header line) for all 8 "
+        "option combinations x three species sources, under every order of each level's per-state-file imap tasks x lazy|eager; the output "
+        "is parsed independently and compared with the checkpoint interior bit for bit (floored mass fractions within 4 eps, summing to one), "
+        "incl. box coordinates, taste(coords), min/max, and an audit that nothing is written into the checkpoint.",
+   note="Checkpoint layout modelled on test_assets/example_chk_3d; the real CheckpointReader accepts the synthetic ones (checked in every run).",
+   tech="bounded-exhaustive exploration + schedule exploration of the implementation against a reference model"),
 }
 
 NOT_YET = {}
